@@ -91,6 +91,8 @@ type harness struct {
 	phase   int // 0 scripts, 1 final sequence, 2 census, 3 done
 	finalErr string
 	faultsOff bool
+	racers    int
+	racing    int // extra Close calls (racers) in progress
 	usedListeners int
 	seenListeners int
 	seenAt        time.Duration
@@ -173,7 +175,33 @@ func Build(config string) core.BuildFunc {
 				return simnet.DialOutcome{Kind: 2}
 			}
 
-			return simnet.DialOutcome{Latency: time.Duration(w.T.Choose("net", 20)) * time.Millisecond}
+			lat := time.Duration(w.T.Choose("net", 20)) * time.Millisecond
+			if config != "clean" && w.T.Choose("net", 3) == 0 && h.racers < 2 {
+				// a Close crossing a dial that has just completed: the dialing goroutine is held with the
+				// established connection in hand while an extra Close runs to completion
+				h.racers++
+				hold := time.Duration(3+w.T.Choose("net", 30)) * time.Millisecond
+				w.HoldAt["net.Dial.ret"] = hold
+				at := lat + time.Duration(w.T.Choose("net", int(hold/time.Millisecond)))*time.Millisecond
+				w.After(at, "close-crossing-dial", func() {
+					if h.faultsOff || h.stop {
+						return
+					}
+					h.racing++
+					w.Go("racer", func() {
+						defer func() { h.racing-- }()
+						if h.faultsOff || h.stop {
+							return
+						}
+						c := h.begin(98, len(h.calls), oClose, 0)
+						err := h.C.Close()
+						c.Bound = h.closeBound()
+						h.end(c, err)
+					})
+				})
+			}
+
+			return simnet.DialOutcome{Latency: lat}
 		}
 		for _, f := range sc.Faults {
 			f := f
@@ -400,6 +428,9 @@ func (h *harness) finale() {
 	w, C := h.w, h.C
 	h.phase = 1
 	h.faultsOff = true
+	for h.racing > 0 {
+		core.Sleep(time.Millisecond) // an extra Close still in progress belongs to the history
+	}
 	// a connection wedged or silenced by an earlier fault is given back to a healthy network
 	if w.Faults["silence"] > 0 || w.Faults["sndfull"] > 0 {
 		for _, l := range h.links {
